@@ -30,6 +30,16 @@ def sample_header(f: Dict[str, Any], extra: Optional[Dict[str, Any]] = None) -> 
     return pack("akai_sample_header", vals)
 
 
+def minimal_program(name: str) -> bytes:
+    """a valid one-keygroup program (header 72 bytes, keygroup at 150 with 4 empty zones)"""
+    hdr = pack("akai_program_header", dict(program_id=1, first_keygroup_address=150, program_name=name[:12], number_of_keygroups=1,
+                                           low_key=24, high_key=127, key_temperaments=bytes(12), polyphony=15, priority=1))
+    zone = pack("akai_velocity_zone", dict(sample_name="", low_velocity=0, high_velocity=127, pad2c=b"\x2c", pad01=b"\x01"))
+    kg = pack("akai_keygroup_head", dict(block_id=2, next_keygroup_address=0, low_key=24, high_key=127, num_velocity_zones=4)) + zone * 4 + \
+        pack("akai_keygroup_tail", dict(enable_key_tracking=bytes(4), aux_out_offset=bytes(4), velocity_to_sample_start=bytes(8)))
+    return hdr + bytes(150 - len(hdr)) + kg
+
+
 def file_entry(name: str, ftype: int, size: int, start: int) -> bytes:
     return pack("akai_file_entry", dict(name=name, file_type=ftype, size=size, start=start))
 
@@ -48,9 +58,10 @@ def build_partition(part: Dict[str, Any], pi: int, case: Dict[str, Any], seed: i
     hdr = pack("akai_partition_header", dict(size=nsect, magic=MAGIC, chk1=0x55, chk2=0xBA, tail=b"\x2f\x00"))
     vols = part["vols"]
     ventries = b""
+    slot_of = {(2 * k + 1 if part.get("volgap") else k): v for k, v in enumerate(vols)}     # entry index -> volume
     for i in range(100):
-        if i < len(vols):
-            v = vols[i]
+        if i in slot_of:
+            v = slot_of[i]
             ventries += pack("akai_volume_entry", dict(name=v["name"], type=v["vtype"], start=v["dir"][0]))
         else:
             ventries += pack("akai_volume_entry", dict(name="", type=0, start=0))
@@ -73,8 +84,10 @@ def build_partition(part: Dict[str, Any], pi: int, case: Dict[str, Any], seed: i
             piece = table[j * S:(j + 1) * S]
             buf[sec * S:sec * S + len(piece)] = piece
         for f in v["files"]:
-            if f.get("no_header"):
-                continue
+            if f.get("no_header") or f["ftype"] == 0x64:
+                continue                                   # no parser for this type: content stays random
+            if f["ftype"] in (0x70, 0xF0) and not f.get("content_head"):
+                f = dict(f, content_head=minimal_program(f["name"]))
             h = f.get("content_head") or sample_header(f)
             # the header lies in the first sector(s) of the chain, in chain order
             pos = 0
